@@ -417,7 +417,11 @@ def run_surfflux_(chk, pkg):
                'SurfFluxEnergy statements at every call of every history', mismatches=sbad)
     chk.assumptions.append('Element.waterStorage is 0 for every element uwg creates (set in __init__, assigned nowhere '
                            'else): the evaporation branch of SurfFlux is dead and the model follows the else branch; '
-                           'an AST scan of the tree under test checks this on every run, and the elements built by the harness are checked to start at 0')
+                           'an AST scan of the tree under test checks this on every run, and the elements built by the harness are checked to start at 0. '
+                           'Elements whose film a CALLER sets (as tests/test_element.py does) are outside the Lean surfFlux; they are '
+                           'explored on the real Conduction / SurfFlux by the ties "element state off its defaults", "a caller set '
+                           'waterStorage > 0 before the step" and "live-run-with-water-films" (property-level energy oracle, exact '
+                           'and float; Conduction itself is tied exactly to the Lean model, which knows the layers only)')
 
 
 # ----------------------------------------------------------------------------- round 4: circumstances
@@ -850,6 +854,379 @@ def run_circumstances(chk, pkg):
 
 
 
+# ----------------------------------------------------------------------------- round 5: element state off its defaults
+# Every element uwg generates has waterStorage = 0, horizontal as its role says, bookkeeping attributes as the last
+# SurfFlux left them. All of them are documented attributes a caller may set (the package's own tests set
+# `rural.waterStorage = 0.005`). C11 speaks about the LAYERS: whatever else the element carries, one step changes the
+# heat stored in the layers by dt x the heat supplied at the two faces.
+FLAGS = (True, False, 1, 0)
+
+
+def gen_state(rng, film=None):
+    import v3_util as V3
+    st = dict(flag=rng.choice(FLAGS), film=film or rng.choice(V3.FILMS), vc=rq(rng, 0, 1, 100),
+              alb=rq(rng, 0.05, 0.9, 100), emis=rq(rng, 0.1, 1, 100), route=rng.choice(['constructor', 'from_dict']),
+              roadlike=rng.random() < 0.4,
+              book={k: rq(rng, -400, 900, 10) for k in ('solRec', 'infra', 'lat', 'sens', 'solAbs', 'flux', 'aeroCond')})
+    st['book'].update(T_ext=rq(rng, 250, 330, 10), T_int=rq(rng, 250, 330, 10))
+    return st
+
+
+def state_json(st):
+    return dict(horizontal_flag=repr(st['flag']), waterStorage='%s (%s)' % (st['film'][1], st['film'][0]),
+                vegcoverage=str(st['vc']), albedo=str(st['alb']), emissivity=str(st['emis']), built_by=st['route'],
+                grass_and_tree_attributes=st['roadlike'], bookkeeping_attributes={k: str(v) for k, v in st['book'].items()})
+
+
+def build_stateful(impl, cs, st, conv):
+    """an Element through the constructor or through Element.from_dict, then the documented attributes assigned the
+    way a caller does (plain attribute assignment)"""
+    import v3_util as V3
+    Element, Material = impl.element.Element, impl.material.Material
+    if cs.get('kind') == 'shared-material':
+        one = Material(conv(cs['k'][0]), conv(cs['c'][0]), 'm')
+        mats = [one] * len(cs['k'])
+    else:
+        mats = [Material(conv(k), conv(c), 'm%d' % j) for j, (k, c) in enumerate(zip(cs['k'], cs['c']))]
+    d = [conv(x) for x in cs['d']]
+    if st['route'] == 'constructor':
+        el = Element(conv(st['alb']), conv(st['emis']), d, mats, conv(st['vc']), conv(F(293)), st['flag'], 'e')
+    else:
+        el = Element.from_dict({'type': 'Element', 'albedo': conv(st['alb']), 'emissivity': conv(st['emis']),
+                                'layer_thickness_lst': d, 'material_lst': [m.to_dict() for m in mats],
+                                'vegcoverage': conv(st['vc']), 't_init': conv(F(293)), 'horizontal': st['flag'],
+                                'name': 'e'})
+    el.layerTemp = [conv(x) for x in cs['t']]
+    V3.set_film(el, conv, st['film'][1])
+    for k, v in st['book'].items():
+        setattr(el, k, conv(v))
+    if st['roadlike']:
+        el.grasscoverage, el.treecoverage = conv(st['vc'] / 2), conv(st['vc'] / 4)
+    return el
+
+
+def wet_surf_call(el, cs, conv, prec, set_temps=True):
+    """the REAL SurfFlux on an element that may carry a film: the Param object has the package's constants (the film
+    branch evaluates qsat); returns the bookkeeping it left, the new profile and the film before / after"""
+    import v3_util as V3
+    if set_temps:
+        el.layerTemp = [conv(x) for x in cs['t']]
+    el.solRec, el.infra = conv(cs['solRec']), conv(cs['infra'])
+    forc = NS(pres=conv(cs['pres']), prec=conv(prec), deepTemp=conv(cs['deepT']))
+    par = V3.film_param(conv, cs['s'], cs['e'], cs['va'], cs['gf'], cs['tf'])
+    sim = NS(month=cs['m'], dt=conv(cs['dt']))
+    w0 = el.waterStorage
+    el.SurfFlux(forc, par, sim, conv(cs['hum']), conv(cs['tref']), conv(cs['wind']), conv(cs['bc']), conv(cs['intF']))
+    return dict(aero=el.aeroCond, solAbs=el.solAbs, lat=el.lat, sens=el.sens, flux=el.flux, T_ext=el.T_ext,
+                T_int=el.T_int, x=list(el.layerTemp), film0=w0, film1=el.waterStorage)
+
+
+def surf_balance(cs, t, r, tol):
+    """C11 on a SurfFlux call as the caller books it: the flux SurfFlux reports (and its parts), the profile before and
+    after. tol = 0: exact."""
+    d, k, c = cs['d'], cs['k'], cs['c']
+    n = len(d)
+    b = [F(v) for v in t]
+    a = [F(v) for v in r['x']]
+    flux = F(r['flux'])
+    net = F(r['solAbs']) + F(cs['infra']) - F(r['lat']) - F(r['sens'])
+    scale = sum(c[j] * d[j] * abs(b[j]) for j in range(n)) or F(1)
+    if abs(flux - net) > tol * (abs(net) + 1):
+        return 'flux %s is not solAbs + infra - lat - sens = %s' % (float(flux), float(net))
+    if cs['bck'] == 'flux':
+        lhs = sum(c[j] * d[j] * (a[j] - b[j]) for j in range(n))
+        rhs = cs['dt'] * (flux + cs['intF'])
+        what = 'dt x (net surface flux %.6f + inner flux %.6f W/m2)' % (float(flux), float(cs['intF']))
+    else:
+        if abs(a[-1] - cs['deepT']) > tol:
+            return 'deep layer %s is not the deep temperature %s' % (float(a[-1]), float(cs['deepT']))
+        g = 2 / (d[n - 2] / k[n - 2] + d[n - 1] / k[n - 1])
+        deep = g * (F(1, 2) * (a[n - 2] - a[n - 1]) + F(1, 2) * (b[n - 2] - b[n - 1]))
+        lhs = sum(c[j] * d[j] * (a[j] - b[j]) for j in range(n - 1))
+        rhs = cs['dt'] * (flux - deep)
+        what = 'dt x (net surface flux %.6f - conductive flux into the deep layer %.6f W/m2)' % (float(flux), float(deep))
+    if abs(lhs - rhs) > tol * scale:
+        return 'heat stored in the layers changed by %.6f J/m2, supplied: %s = %.6f J/m2 (difference %.6g J/m2)' % (
+            float(lhs), what, float(rhs), float(lhs - rhs))
+    return None
+
+
+def run_element_state(chk, pkg):
+    import uwgutil as UU
+    import v3_util as V3
+    rng = chk.rng
+    big = chk.tier == 'thorough'
+    plain = UU.uwg_mod()
+
+    # ---- (1) Conduction on elements whose other documented state is off its defaults: exact tie + energy oracle
+    pairs, nbad, ncase, br = [], 0, 0, {}
+    for film in V3.FILMS:
+        for flag in FLAGS:
+            for _ in range(2 if not big else 12):
+                cs = gen_case(rng, n=rng.choice([2, 3, 4, 6, 9, 15]))
+                st = gen_state(rng, film=film)
+                st['flag'] = flag
+                for mode, impl in (('exact', pkg), ('float', plain)):
+                    conv = V3.conv_of(mode)
+                    el = build_stateful(impl, cs, st, conv)
+                    snap = {k: getattr(el, k) for k in ('waterStorage', 'horizontal', 'vegcoverage', 'albedo', 'emissivity',
+                                                        'solRec', 'infra', 'lat', 'sens', 'solAbs', 'flux', 'aeroCond')}
+                    xs = call_cond(el, cs, conv)
+                    ncase += 1
+                    key = '%s/%s/%s' % (mode, 'wet' if film in V3.WET else 'dry', 'horizontal' if flag else 'vertical')
+                    br[key] = br.get(key, 0) + 1
+                    if mode == 'exact':
+                        pairs.append((line_of(cs), 'ok ' + frac_list(xs)))
+                        msg = oracle(cs, xs)
+                    else:
+                        msg = balance_msg(cs, cs['t'], xs, F(1, 10 ** 9))
+                        if msg is None and cs['kind'] in ('uniform', 'steady') and \
+                                max(abs(F(a) - b) for a, b in zip(xs, cs['t'])) > F(1, 10 ** 8):
+                            msg = '%s profile is not a fixed point (moved by %.3g K)' % (
+                                cs['kind'], max(abs(float(F(a) - b)) for a, b in zip(xs, cs['t'])))
+                    if msg is None:
+                        ch = [k for k, v in snap.items() if getattr(el, k) != v]
+                        if ch:
+                            msg = 'Conduction changed attribute %s of the element' % ch[0]
+                    if msg:
+                        nbad += 1
+                        if nbad <= 2:
+                            chk.violation('impl-violation', 'energy oracle on Element.Conduction, element state off its '
+                                          'defaults (%s arithmetic)' % mode,
+                                          case=dict(case_json(cs), element_state=state_json(st), arithmetic=mode),
+                                          observed=msg, expected='the heat stored in the LAYERS changes by dt x the heat '
+                                          'supplied at the two faces, whatever else the element carries (water film, '
+                                          'orientation, vegetation, bookkeeping of the last SurfFlux)')
+    # sequences on one object, the film changed by the caller between the steps (rain, drying)
+    nseq = 8 if not big else 80
+    for _ in range(nseq):
+        base = gen_case(rng, kind='random', n=rng.choice([2, 3, 5, 8]))
+        st = gen_state(rng, film=rng.choice(V3.WET))
+        st['flag'] = rng.choice([True, 1, True, False])
+        for mode, impl in (('exact', pkg), ('float', plain)):
+            conv = V3.conv_of(mode)
+            el = build_stateful(impl, base, st, conv)
+            e0 = V3.stored_heat(base['d'], base['c'], el.layerTemp)
+            supplied, cur_st, allflux = F(0), st, True
+            for step in range(rng.randint(2, 4)):
+                cs = vary_step(rng, base)
+                cs['t'] = [F(x) for x in el.layerTemp]
+                film = rng.choice(V3.FILMS)
+                V3.set_film(el, conv, film[1])
+                cur_st = dict(cur_st, film=film)
+                xs = call_cond(el, cs, conv)
+                el.layerTemp = xs
+                ncase += 1
+                br['%s/sequence' % mode] = br.get('%s/sequence' % mode, 0) + 1
+                if mode == 'exact':
+                    pairs.append((line_of(cs), 'ok ' + frac_list(xs)))
+                msg = balance_msg(cs, cs['t'], xs, F(0) if mode == 'exact' else F(1, 10 ** 9))
+                if cs['bc'] == 'flux':
+                    supplied += cs['dt'] * (cs['flx1'] + cs['v2'])
+                else:
+                    allflux = False
+                if msg:
+                    nbad += 1
+                    if nbad <= 3:
+                        chk.violation('impl-violation', 'energy oracle on a sequence of Conduction steps, film set by the caller '
+                                      'between the steps (step %d, %s arithmetic)' % (step + 1, mode),
+                                      case=dict(case_json(cs), element_state=state_json(cur_st), arithmetic=mode),
+                                      observed=msg, expected='exact energy balance of the layers at every step')
+                    break
+            else:
+                if allflux:
+                    e1 = V3.stored_heat(base['d'], base['c'], el.layerTemp)
+                    if abs((e1 - e0) - supplied) > (F(0) if mode == 'exact' else F(1, 10 ** 9) * abs(e0)):
+                        nbad += 1
+                        chk.violation('impl-violation', 'energy over a whole sequence of flux-boundary steps (%s)' % mode,
+                                      case=dict(case_json(base), element_state=state_json(st)),
+                                      observed='stored heat changed by %.6f J/m2 over the sequence, supplied %.6f J/m2' % (
+                                          float(e1 - e0), float(supplied)), expected='equal (theorem energy_sequence)')
+    chk.direct('energy-oracle(Conduction, element state off its defaults; exact and float)', ncase, ncase,
+               'C11 statement on every case of the tie above, in exact rationals and in plain floats (1e-9 of the stored '
+               'heat): stored-heat change of the layers = dt x heat supplied (both boundary kinds), uniform / steady fixed, '
+               'no attribute of the element changed by Conduction; over whole flux-boundary sequences E(end) - E(start) = '
+               'sum of the heat supplied', mismatches=nbad, branches=br)
+
+    # ---- (2) SurfFlux on elements that carry a film (a caller set waterStorage > 0 before the step)
+    nbad, ncase, br, dry_pairs = 0, 0, {}, []
+    members = [(o, b, s, f) for o in ('road', 'roof', 'wall') for b in ('flux', 'deep') for s in ('in', 'before')
+               for f in V3.FILMS[1:]]
+    if not big:
+        members = [m for i, m in enumerate(members) if i % 2 == chk.seed % 2] + members[:6]
+    else:
+        members = members * 6
+    for (o, b, s, film) in members:
+        cs = gen_surf(rng, orient=o, bck=b, season=s, kind='random')
+        if rng.random() < 0.8 and cs['solRec'] == 0:
+            cs['solRec'] = rq(rng, 20, 900, 1)
+        prec = rng.choice([F(0), F(0), F(1, 10 ** 7), F(3, 10 ** 6)])
+        wet = film in V3.WET and o != 'wall'
+        for mode, impl in (('exact', pkg), ('float', plain)):
+            conv = V3.conv_of(mode)
+            Element, Material = impl.element.Element, impl.material.Material
+            el = Element(conv(cs['alb']), conv(F(9, 10)), [conv(x) for x in cs['d']],
+                         [Material(conv(k), conv(c), 'm') for k, c in zip(cs['k'], cs['c'])], conv(cs['vc']),
+                         conv(F(293)), 0 if o == 'wall' else 1, 'x')
+            if o == 'road':
+                el.grasscoverage, el.treecoverage = conv(cs['g']), conv(cs['tr'])
+            V3.set_film(el, conv, film[1])
+            try:
+                r = wet_surf_call(el, cs, conv, prec)
+            except (ZeroDivisionError, ValueError, OverflowError) as ex:   # stub / float domain of qsat: not this property
+                br['%s/%s' % (mode, type(ex).__name__)] = br.get('%s/%s' % (mode, type(ex).__name__), 0) + 1
+                continue
+            ncase += 1
+            key = '%s/%s/%s/%s' % (mode, o, b, 'film' if wet else 'no-film-branch')
+            br[key] = br.get(key, 0) + 1
+            msg = surf_balance(cs, cs['t'], r, F(0) if mode == 'exact' else F(1, 10 ** 9))
+            if mode == 'exact' and not wet:
+                # the film does not act (below the tolerance / vertical element): the dry Lean model must answer exactly
+                dry_pairs.append((surf_line(cs), surf_ans(r)))
+            if msg:
+                nbad += 1
+                if nbad <= 3:
+                    chk.violation('impl-violation', 'energy oracle on Element.SurfFlux of an element carrying a water film '
+                                  '(%s arithmetic)' % mode,
+                                  case=dict(case_json(cs), waterStorage_set_by_the_caller='%s (%s)' % (film[1], film[0]),
+                                            precipitation=str(prec), arithmetic=mode),
+                                  observed=msg, expected='the layers gain dt x (solAbs + infra - lat - sens + inner flux) (kind '
+                                  '1) / the deep-layer balance (kind 2), exactly as for a dry element: the flux SurfFlux '
+                                  'reports is the flux into the layers')
+    # histories: the film evaporates / is refilled over 3-6 calls on one element
+    for _ in range(6 if not big else 60):
+        base = gen_surf(rng, orient=rng.choice(['road', 'roof']), kind='random', n=rng.choice([2, 3, 5, 8]))
+        film = rng.choice(V3.WET)
+        hseed = rng.random()
+        for mode, impl in (('exact', pkg), ('float', plain)):
+            conv = V3.conv_of(mode)
+            Element, Material = impl.element.Element, impl.material.Material
+            el = Element(conv(base['alb']), conv(F(9, 10)), [conv(x) for x in base['d']],
+                         [Material(conv(k), conv(c), 'm') for k, c in zip(base['k'], base['c'])], conv(base['vc']),
+                         conv(F(293)), 1, 'x')
+            if base['orient'] == 'road':
+                el.grasscoverage, el.treecoverage = conv(base['g']), conv(base['tr'])
+            el.layerTemp = [conv(x) for x in base['t']]
+            V3.set_film(el, conv, film[1])
+            srng = __import__('random').Random(hseed)      # the same history in both arithmetics
+            for step in range(4):
+                cs = gen_surf(srng, orient=base['orient'], kind='random', n=len(base['d']))
+                for q in ('d', 'k', 'c', 'alb', 'vc', 'g', 'tr', 's', 'e'):
+                    cs[q] = base[q]
+                cs['m'] = srng.randint(1, 12)
+                cs['t'] = [F(x) for x in el.layerTemp]
+                try:
+                    r = wet_surf_call(el, cs, conv, srng.choice([F(0), F(2, 10 ** 6)]), set_temps=False)
+                except (ZeroDivisionError, ValueError, OverflowError):
+                    break
+                ncase += 1
+                br['%s/history' % mode] = br.get('%s/history' % mode, 0) + 1
+                msg = surf_balance(cs, cs['t'], r, F(0) if mode == 'exact' else F(1, 10 ** 9))
+                if msg:
+                    nbad += 1
+                    if nbad <= 4:
+                        chk.violation('impl-violation', 'energy oracle on a history of SurfFlux calls on one element carrying '
+                                      'a film (call %d, %s arithmetic)' % (step + 1, mode),
+                                      case=dict(case_json(cs), waterStorage_at_the_start=film[1],
+                                                waterStorage_before_this_call=str(r['film0']), arithmetic=mode),
+                                      observed=msg, expected='exact energy balance of the layers at every call')
+                    break
+    chk.correspond('Element.Conduction / SurfFlux(element state off its defaults)~conduction / surfFlux', 'C11',
+                   pairs + dry_pairs,
+                   rule='(a) fractionised REAL Element.Conduction on elements built through the constructor / through '
+                        'Element.from_dict whose OTHER documented attributes a caller may set are moved off the values every '
+                        'generated model has: waterStorage in {0, 1e-20 (below the is_near_zero tolerance), 3e-10, 0.0004, '
+                        '0.0021, 0.005 as tests/test_element.py sets it, 0.02 above wgmax} x orientation flag {True, False, 1, '
+                        '0}, vegcoverage 0..1, albedo, emissivity, grass / tree attributes, and the bookkeeping attributes '
+                        '(solRec, infra, lat, sens, solAbs, flux, aeroCond, T_ext, T_int) at arbitrary values; single calls '
+                        'and 2-4 steps on one object with the film re-set by the caller between the steps; vs the Lean '
+                        '`conduction` of the LAYERS alone (the model knows no other state: Conduction must not read any). '
+                        '(b) fractionised REAL SurfFlux on a vertical element with waterStorage > 0 and on horizontal '
+                        'elements whose film lies below the is_near_zero tolerance (1e-20): the film branch is not taken, the '
+                        'Lean surfFlux (which follows the else branch) must answer exactly',
+                   classify=lambda line, impl: ('cond/' + line.split(' bc=')[1].split(' ')[0]) if line.startswith('cond')
+                   else ('surfflux/wall' if ' hor=0 ' in line else 'surfflux/horizontal'))
+    chk.direct('energy-oracle(SurfFlux, a caller set waterStorage > 0 before the step; exact and float)', ncase, ncase,
+               'the family composition B excludes for the package itself ("waterStorage = 0: scan, not theorem") explored on '
+               'the REAL SurfFlux -> Conduction: road / roof-like / wall elements with waterStorage set by plain assignment '
+               'to 1e-20, 3e-10, 0.0004, 0.0021, 0.005 (tests/test_element.py), 0.02, with and without precipitation, both '
+               'boundary kinds, in and off season, exact rationals (Param with the package\'s constants, qsat over the shared '
+               'stubs) and plain floats; histories of 4 calls on one element while the film evaporates / is refilled. Oracle: '
+               'flux = solAbs + infra - lat - sens and the heat stored in the layers changes by dt x (flux + inner flux) '
+               '(kind 1) / deep-layer balance (kind 2)', mismatches=nbad, branches=br)
+
+    # ---- (3) a live run the way tests/test_element.py prepares it: films assigned after generate()
+    import u3_util as U3
+    work = chk.work()
+    films = rng.choice([(0.005, 0.002, 0.004), (0.001, 0.005, 0.0005), (0.005, 0.005, 0.005)])
+    month, day = rng.choice([(1, 1), (4, 12), (7, 20), (10, 3)])
+    probs, counts, err = [], {}, None
+    with U3.Patch() as p:
+        mon = U3.ConductionMonitor(p)
+        EL = plain.element.Element
+        orig_surf = EL.SurfFlux
+        wetcalls = {}
+
+        def counting_surf(self_, forc, parameter, simTime, humRef, tempRef, windRef, boundCond, intFlux):
+            wet = self_.waterStorage > 1e-10
+            if wet:
+                wetcalls[self_.name] = wetcalls.get(self_.name, 0) + 1
+            before = list(self_.layerTemp)
+            r = orig_surf(self_, forc, parameter, simTime, humRef, tempRef, windRef, boundCond, intFlux)
+            if wet and len(surf_probs) < 2:
+                # the caller's book of the SurfFlux call: the flux it REPORTS against the heat the layers gained
+                cs = dict(d=[F(x) for x in self_.layer_thickness_lst], k=[F(x) for x in self_.layerThermalCond],
+                          c=[F(x) for x in self_.layerVolHeat], bck='flux' if abs(boundCond - 1.) < 1e-9 else 'deep',
+                          dt=F(simTime.dt), intF=F(intFlux), deepT=F(forc.deepTemp), infra=F(self_.infra))
+                msg = surf_balance(cs, before, dict(x=list(self_.layerTemp), flux=self_.flux, solAbs=self_.solAbs,
+                                                   lat=self_.lat, sens=self_.sens), F(1, 10 ** 9))
+                if msg:
+                    surf_probs.append('%s at %s/%s %ss, film %r m: %s' % (self_.name, simTime.month, int(simTime.day),
+                                                                          int(simTime.secDay), self_.waterStorage, msg))
+            return r
+        surf_probs = []
+        p.set(EL, 'SurfFlux', counting_surf)
+        m = UU.new_model(outdir=work, outname='wet11.epw', month=month, day=day, nday=1, dtsim=300)
+        try:
+            with core_quiet():
+                m.generate()
+                m.rural.waterStorage = films[0]
+                m.UCM.road.waterStorage = films[1]
+                for b in m.BEM:
+                    b.roof.waterStorage = films[2]
+                    b.mass.waterStorage = films[2]
+                m.simulate()
+        except Exception as ex:  # noqa: BLE001 - the model's own fail-stop is not a verdict of this property
+            if type(ex) is not Exception:
+                raise
+            err = str(ex)[:80]
+        res = mon.result()
+        probs, counts = res['problems'] + surf_probs, res['counts']
+    if err:
+        chk.notes.append('live run with films skipped: ' + err)
+    elif not wetcalls:
+        raise __import__('core').Infra('live run with films: no SurfFlux call saw a film')
+    counts = dict(counts, **{'SurfFlux calls with a film on ' + k: v for k, v in wetcalls.items()})
+    for pr in probs[:2]:
+        chk.violation('impl-violation', 'Conduction monitor on a live run whose elements carry a water film',
+                      case={'month': month, 'day': day, 'nday': 1, 'dtsim': 300, 'epw': UU.EPW_SGP,
+                            'after generate()': 'rural.waterStorage = %s; UCM.road.waterStorage = %s; every roof and mass: '
+                                                '%s' % films}, observed=pr,
+                      expected='every Conduction call of the run: stored-heat change of the layers = dt x heat supplied')
+    chk.direct('live-run-with-water-films(Conduction monitor)', counts.get('calls', 0), 1,
+               'generate(); rural / road / roofs / floors given a film by plain assignment (as tests/test_element.py does); '
+               'simulate() for one day (Singapore, dtsim 300) with EVERY Element.Conduction call monitored: pure, new list, '
+               'stored-heat change = dt x heat supplied to 1e-9 for both boundary kinds; and every SurfFlux call of an element '
+               'that carries a film booked from outside: the flux it reports = solAbs + infra - lat - sens, and the layers '
+               'gain dt x (that flux + inner flux) / the deep-layer balance', mismatches=len(probs),
+               branches=counts)
+
+
+def core_quiet():
+    import core
+    return core.quiet()
+
+
 def run(chk):
     chk.proof(MODULE, THEOREMS, extra_modules=[SURF_MODULE])
     if chk.tier == 'thorough':
@@ -929,6 +1306,7 @@ def run(chk):
     chk.direct('energy-oracle(sequence on one object)', nst, nst, 'C11 statement at every step of every sequence',
                mismatches=seq_bad)
     run_surfflux(chk, pkg)
+    run_element_state(chk, pkg)
     run_circumstances(chk, pkg)
     chk.assumptions.append('Element.Conduction is exercised through fracexec (exact rationals); '
                            'double rounding is outside the theorem')
